@@ -18,7 +18,7 @@ import (
 func init() {
 	Registry["C01"] = C01
 	Metas["C01"] = Meta{
-		Explanation: "Decides, for every public method of both cache implementations and on every abstract path (absent / live / expired state of the key x outcomes of user functions x nil-ness of callback and visitor), the per-call clauses of C01 by role evaluation (abstract interpretation of the method's SSA with the underlying map operations replaced by their contract): (T1) the expiry predicates decide exactly 'e > 0 and now > e' with a clock read in the call (or the caller-supplied reading for the with-now variant); every expiry decision taken anywhere in a method has that canonical shape and uses a clock reading made during the call; (T2) no value or expiration instant of an item obtained from the map reaches an API output - a result, an argument of the user's function or visitor, the Items map - unless that very item tested unexpired on the path (callback arguments are exempt: callbacks report removed, possibly expired, values); (T3) each method's decision table - abstract state of the key as seen by the deciding map operation -> (map effect, returned roles, user calls, callbacks) - equals the reviewed TTL-map reference table; (T4) an entry is removed because of expiry only when it tested expired; (T5) the premises the tables rest on are restated from their own rule families: the map-operation contract (C11.L1-L3) and the integrity of entries across grow / shrink / Clear (C03/C04 P4, P6, P8, P10). NOT decided: sequences of calls (each call is checked against the contract of the map operations, whose own shape is decided in C03/C04/C11), clock behaviour, int64 overflow of now+d.",
+		Explanation: "Decides, for every public method of both cache implementations and on every abstract path (absent / live / expired state of the key x outcomes of user functions x nil-ness of callback and visitor), the per-call clauses of C01 by role evaluation (abstract interpretation of the method's SSA with the underlying map operations replaced by their contract): (T1) the expiry predicates decide exactly 'e > 0 and now > e' with a clock read in the call (or the caller-supplied reading for the with-now variant); every expiry decision taken anywhere in a method has that canonical shape and uses a clock reading made during the call, and an entry that a read-modify-write treats as live and hands out (result, user function, re-armed item) was compared with a reading made inside that operation's closure, i.e. after the key's lock was taken; (T2) no value or expiration instant of an item obtained from the map reaches an API output - a result, an argument of the user's function or visitor, the Items map - unless that very item tested unexpired on the path (callback arguments are exempt: callbacks report removed, possibly expired, values); (T3) each method's decision table - abstract state of the key as seen by the deciding map operation -> (map effect, returned roles, user calls, callbacks) - equals the reviewed TTL-map reference table; (T4) an entry is removed because of expiry only when it tested expired; (T5) the premises the tables rest on are restated from their own rule families: the map-operation contract (C11.L1-L3) and the integrity of entries across grow / shrink / Clear (C03/C04 P4, P6, P8, P10); (T6, 386 configuration) the 64-bit words updated atomically are aligned (C14.A7). The per-path rules T2/T4 and the canonical-shape rule also run over exported methods added beyond the reviewed list, wherever the evaluator models them completely. NOT decided: sequences of calls (each call is checked against the contract of the map operations, whose own shape is decided in C03/C04/C11), clock behaviour, int64 overflow of now+d.",
 		Rule:        "one obligation per (rule, method, abstract path or table row); non-trivial = the verdict depended on at least one evaluated path; paths are partitioned by the branch atoms the method tests",
 		Assumptions: []string{"the map-operation contract used by the evaluator (checked against the compute core by C11.L1 on the same run)", "user functions are pure with respect to the cache"},
 	}
@@ -60,6 +60,13 @@ func C01(r *Run) *core.Report {
 	n += borrow(rep, mapProtocol(r, "C03", 0), "C01.T5", "C03.P3", "C03.P4", "C03.P6", "C03.P8", "C03.P10", "C03.P12", "C03.P14")
 	n += borrow(rep, mapProtocol(r, "C04", 1), "C01.T5", "C04.P3", "C04.P4", "C04.P6", "C04.P8", "C04.P10", "C04.P12", "C04.P14")
 	rep.MinCount("C01.T5", "premise obligations (map contract, resize integrity)", n, 60)
+	// T6 (32-bit layout only): the 64-bit words that the maps and the cache objects update atomically are 8-byte
+	// aligned - otherwise the first such access panics there and a value-returning call reports nothing at all
+	// (restated from C14.A7)
+	if r.P.GOARCH == "386" {
+		n6 := borrow(rep, C14(r), "C01.T6", "C14.A7")
+		rep.MinCount("C01.T6", "premise obligations (64-bit atomic operands aligned on 386)", n6, 2)
+	}
 	return rep
 }
 
@@ -202,6 +209,34 @@ func c01T2T4(r *Run, rep *core.Report, mp *MethodPaths) {
 			}
 			if st.Clock != nil && !clockInCall(st.Clock) {
 				badShape["clock"] = "an expiry decision compares against " + st.Clock.String() + ", which is not a clock reading made during this call (cached or caller-supplied timestamp)"
+			}
+			// T1 (freshness under the lock): an entry that a read-modify-write treats as LIVE must have been compared
+			// with a clock reading made inside that operation's closure - a reading taken before the operation waited
+			// for the key's lock may be arbitrarily old: a value that expired during the wait is returned / re-armed.
+			// (Treating an entry as expired on an older reading is safe - it is expired now as well - and Range / Items
+			// filter on the reading taken at traversal start by definition.)
+			if ev.PCTo > ev.PCFrom && st.Status == "live" && st.Clock != nil {
+				inside := false
+				for _, a := range p.PC[ev.PCFrom:min(ev.PCTo, len(p.PC))] {
+					if a.T.Op == "cmp" && len(a.T.Args) == 2 && (a.T.Args[0] == st.Clock || a.T.Args[0].String() == st.Clock.String()) && a.T.Args[1].String() == sym.Mk("field", "e", x).String() {
+						inside = true
+					}
+				}
+				// ... and the entry's value must go somewhere because of that judgement: into a result, the user's function,
+				// the Items map, or a re-armed item (merely keeping the entry as it is - DeleteExpired's re-check - hands
+				// nothing out)
+				isX := func(t *sym.Term) bool {
+					return t != nil && t.Contains(func(y *sym.Term) bool { return y.Op == "mapold" && y.K == x.K })
+				}
+				used := ev.Stored != nil && ev.Stored.Op != "mapold" && isX(ev.Stored)
+				for _, o := range outputsOf(p) {
+					if isX(o[1].(*sym.Term)) {
+						used = true
+					}
+				}
+				if k, ok := clockIndex(st.Clock); ok && inside && used && k <= ev.ClockBefore {
+					badShape["staleclock"] = fmt.Sprintf("the entry observed by the %s at %s is judged unexpired inside the operation's closure against clock reading #%d, which was taken before the operation began (it may have waited for the key's lock since): a value that expired meanwhile is treated as live", ev.Name, ev.Pos, k)
+				}
 			}
 			// T4: physical removal motivated by expiry only of an entry that tested expired.
 			// Explicit removers (LoadAndDelete/Delete operations, user-requested deletes) are exempt.
@@ -366,4 +401,17 @@ func canonExp(r *Run, s string) string {
 		}
 		return "zero"
 	})
+}
+
+// clockIndex: the ordinal of the clock reading a term is built from (now:k).
+func clockIndex(t *sym.Term) (int, bool) {
+	idx, found := 0, false
+	t.Walk(func(x *sym.Term) {
+		if x.Op == "now" && !found {
+			if _, err := fmt.Sscanf(x.K, "%d", &idx); err == nil {
+				found = true
+			}
+		}
+	})
+	return idx, found
 }
